@@ -119,8 +119,7 @@ func c18Run(xmlText string, script []string, pendingAt func(done map[string]bool
 		return
 	}
 	if strings.Contains(xmlText, "intermediateCatchEvent") {
-		// the set's watcher registers a catch event when it reads the event's announcement that it listens: give it
-		// time before a script lets a thrower go (open finding C18-wake-lost-before-registration)
+		// (until /repo 656cb12 the set's watcher had to register a catch event before a throw could wake it)
 		time.Sleep(150 * time.Millisecond)
 	}
 	wait := func(d time.Duration) int {
@@ -424,10 +423,9 @@ func c18Case(ps []c18Proc, flows [][2]string, log []Ev) string {
 // loop (C1 -> B1 -> back to C1 while B1 answers again = true). Each throw wakes the catch event once: B1 is requested
 // after the first throw, and again after the second, however long the delivery of the first takes (process 1 is
 // padded with `pad` tasks no token ever reaches: every event is offered to every node).
-// settled = true: the driver gives the set's watcher 150 ms after the catch event's announcement that it listens
-// before it lets the thrower go on (the watcher registers the catch event when IT reads that announcement);
-// settled = false: the thrower goes on at once -- the throw can then be handled before the registration and is lost
-// (open finding C18-wake-lost-before-registration; a wake-up that is lost there is reported under that key).
+// settled = true: the driver waits 150 ms after the catch event's announcement that it listens before it lets the
+// thrower go on; settled = false: the thrower goes on at once (until /repo 656cb12 the throw could then be handled
+// before the set's watcher had registered the catch event, and was lost).
 func c18LoopedCatch(env *Env, rep *Report, pad, rounds int, settled bool) {
 	p0 := &Prog{}
 	p0.Node("start", "s0")
@@ -491,8 +489,8 @@ func c18LoopedCatch(env *Env, rep *Report, pad, rounds int, settled bool) {
 		}
 		step("T0", "T0 was not requested")
 		step("B1", "first throw: the catch event was not woken (B1 not requested)", bpmn.DoWithResults(map[string]any{"again": true}))
-		if problem == "" && !col.WaitUntil(tmoStep, func(l []Ev) bool { return countEv(l, "visit", "C1") >= 2 }) {
-			problem = "the token did not come back to the catch event"
+		if problem == "" && !col.WaitUntil(tmoStep, func(l []Ev) bool { return countEv(l, "listening", "C1") >= 2 }) {
+			problem = "the token did not come back to the catch event (it did not announce that it listens again)"
 		}
 		if problem == "" && settled {
 			time.Sleep(150 * time.Millisecond)
@@ -507,11 +505,7 @@ func c18LoopedCatch(env *Env, rep *Report, pad, rounds int, settled bool) {
 			cc()
 		}
 		if problem != "" {
-			key := "C18-message-flow"
-			if !settled && strings.Contains(problem, "the catch event was not woken") {
-				key = "C18-wake-lost-before-registration"
-			}
-			rep.Violate(key, cs, problem+"; log: "+tailStr(logString(col.Log()), 1500))
+			rep.Violate("C18-message-flow", cs, problem+"; log: "+tailStr(logString(col.Log()), 1500))
 		}
 		cancel()
 	}
